@@ -1,3 +1,11 @@
 //! Safe-Rust verification hooks for this module (accessors/wrappers only; no logic).
 #![allow(unused_imports, dead_code)]
 use super::*;
+
+// ---- C33 (np_nts_h): raw constructor/getter for the private u32.
+pub fn refid_from_raw(v: u32) -> ReferenceId {
+    ReferenceId(v)
+}
+pub fn refid_raw(r: ReferenceId) -> u32 {
+    r.0
+}
